@@ -249,6 +249,13 @@ func (cr *checkRun) runUnit(full string) {
 			}
 			continue
 		}
+		if o.Kind == "canary" {
+			if !o.OK() && !deadReturn(rep.Obls, o) {
+				ue.Failed = append(ue.Failed, o.Name)
+				cr.viol = append(cr.viol, violation{Obligation: o.Name, Kind: "vacuity", Unit: full, Detail: "`false` is provable at this return: the assumptions on this path (contracts, invariants or a modelling fact) contradict each other, every obligation after the contradiction is proved for free"})
+			}
+			continue
+		}
 		if o.Kind == "variant.auto" {
 			continue // candidate variants belong to the termination sweep (C10), where only the discharged ones are claimed
 		}
@@ -611,4 +618,17 @@ func allVerifiedUnits() []string {
 		out = append(out, p.Units...)
 	}
 	return out
+}
+
+// deadReturn: the return a canary belongs to is already unreachable by the plain (quantifier-free) facts - its soft
+// reachability cover is unsat, typically a defensive return excluded by a precondition. That is reported with the soft
+// covers; the canary is about contradictions the covers cannot see.
+func deadReturn(obls []*Oblig, canary *Oblig) bool {
+	want := strings.Replace(strings.TrimSuffix(canary.Name, ":false-not-provable"), "#canary@", "#cover@", 1) + ":reachable"
+	for _, o := range obls {
+		if o.Cover && o.Name == want {
+			return o.Res != nil && o.Res.Status == "unsat"
+		}
+	}
+	return false
 }
